@@ -541,6 +541,29 @@ impl<'a, 'b> Renderer<'a, 'b> {
                     path.pop();
                     parts.push(need(t, Prec::Inter));
                 }
+                // does the compiler get to merge this intersection into one object type?  Only when every member is
+                // written as an object literal and no key is declared twice with different types or optionality;
+                // otherwise it stays an intersection of separately validated members
+                let all_inline = parts.iter().all(|t| t.trim_start().starts_with('{') && t.trim_end().ends_with('}') && !t.contains("} & {"));
+                let mut mergeable = true;
+                let mut seen: Vec<&Prop> = vec![];
+                for m in ms {
+                    match m {
+                        D::Object { props, index: None } => {
+                            for p in props {
+                                if let Some(q) = seen.iter().find(|q| q.key == p.key) {
+                                    if **q != *p {
+                                        mergeable = false;
+                                    }
+                                } else {
+                                    seen.push(p);
+                                }
+                            }
+                        }
+                        _ => mergeable = false,
+                    }
+                }
+                self.mark(if all_inline && mergeable { "inter_inline_mergeable" } else { "inter_unmerged_or_named" });
                 if self.cfg.has(Feat::Order) && parts.len() > 1 && self.in_generic_def.is_none() {
                     let r = self.s.below(parts.len());
                     parts.rotate_left(r);
@@ -645,6 +668,18 @@ impl<'a, 'b> Renderer<'a, 'b> {
         let direct_member = std::mem::replace(&mut self.direct_inter_member, false);
         let all: Vec<usize> = (0..props.len()).collect();
         if let Some(ix) = index {
+            // an index value that admits undefined can be written as an optional index signature
+            // (Partial<Record<string, T>>, {[K in string]?: T}): the compiler keeps that as an optional-field wrapper
+            if props.is_empty() && self.cfg.has(Feat::Utility) && self.in_generic_def.is_none() {
+                if let D::Union(ms) = ix {
+                    if ms.len() == 2 && ms.iter().filter(|m| matches!(m, D::Undefined)).count() == 1 && self.s.chance(1, 2) {
+                        let inner = ms.iter().find(|m| !matches!(m, D::Undefined)).unwrap().clone();
+                        let vt = self.ty(&inner);
+                        self.mark("optional_index_value");
+                        return if self.s.chance(1, 2) { atom(format!("Partial<Record<string, {}>>", vt.s)) } else { atom(format!("{{ [K in string]?: {} }}", vt.s)) };
+                    }
+                }
+            }
             path.push(props.len());
             let vt = self.ty_at(ix, path);
             path.pop();
